@@ -498,13 +498,20 @@ impl<'a, 'c> G<'a, 'c> {
                 }
             }
             11 => {
-                if self.c.bool() {
+                // the re-entering native is reached either by a CallNative card or, as a function
+                // value, through a dynamic call (a different dispatch path in the VM)
+                let (name, args) = if self.c.bool() {
                     let (f, _) = self.func_value(ctx, 0, depth + 1);
-                    (Expr::CallNative("call0".into(), vec![f]), Ty::Any)
+                    ("call0", vec![f])
                 } else {
                     let (f, _) = self.func_value(ctx, 1, depth + 1);
                     let (x, _) = self.expr(ctx, Ty::Any, depth + 1);
-                    (Expr::CallNative("call1".into(), vec![f, x]), Ty::Any)
+                    ("call1", vec![f, x])
+                };
+                if self.c.chance(90) {
+                    (Expr::DynCall(Box::new(Expr::NativeRef(name.into())), args), Ty::Any)
+                } else {
+                    (Expr::CallNative(name.into(), args), Ty::Any)
                 }
             }
             12 => {
